@@ -94,7 +94,7 @@ def api_names():
     def set_bitlength(n):
         rt.bitlength = n
     import functools
-    return dict(snark=rt.snark, set_bitlength=set_bitlength, _aug=model._aug, functools=functools, _Call=_Call, if_guard=rt.if_guard, **hashes, PackBool=pk.PackBool, PackIntMod=pk.PackIntMod, PackList=pk.PackList, PackRepeat=pk.PackRepeat,
+    return dict(snark=rt.snark, set_bitlength=set_bitlength, _aug=model._aug, functools=functools, _Call=_Call, if_guard=rt.if_guard, igprint=rt.igprint, **hashes, PackBool=pk.PackBool, PackIntMod=pk.PackIntMod, PackList=pk.PackList, PackRepeat=pk.PackRepeat,
                 PrivVal=rt.PrivVal, PubVal=rt.PubVal, ConstVal=rt.ConstVal, LinComb=rt.LinComb,
                 guarded=rt.guarded, PrivValBool=bo.PrivValBool, PubValBool=bo.PubValBool, LinCombBool=bo.LinCombBool,
                 PrivValFxp=fx.PrivValFxp, PubValFxp=fx.PubValFxp, LinCombFxp=fx.LinCombFxp,
@@ -258,6 +258,9 @@ ASSERT_T = [
     ("bassert_eq", None, "{b}.assert_eq({b})"), ("bassert_ne", None, "{b}.assert_ne({B})"),
     ("fassert_lt", None, "{f}.assert_lt({f})"), ("fassert_ge", None, "{f}.assert_ge({c})"),
     ("fassert_eq", None, "{f}.assert_eq({f})"),
+    # formatting / printing a secret (igprint prints in live code only) never touches the circuit
+    ("igprint_f", None, "igprint({f})"), ("igprint_i", None, "igprint({i}, {b})"), ("repr_f", None, "repr({f}) + str({i})"),
+    ("format_b", None, "'%s %r' % ({b}, {f})"),
     ("val_i", None, "{i}.val()"), ("val_b", None, "{b}.val()"), ("val_f", None, "{f}.val()"),
     ("val_conv", None, "LinCombBool({i}).val()"), ("val_conv_not", None, "(~LinCombBool({i})).val()"), ("val_conv_and", None, "(LinCombBool({i}) & {b}).val()"),
 ]
